@@ -33,6 +33,7 @@ def H2(u, v=3):
 
 KNOWN_FOR_TARGET = 'for-target-killed-on-zero-iterations'
 KNOWN_CHAIN_EQ = 'chained-equality-under-equality-operators-evaluates-middle-operand-twice'
+KNOWN_LAMBDA = 'lambda-closure-variable-not-kept-live'
 KNOWN_LISTS_AUG = 'lists-augassign-subscript-operator-missing'
 
 
@@ -95,6 +96,28 @@ def is_chained_equality_finding(src, feats, a, b):
         return False          # result / exception differ: not this finding
     return any(isinstance(n, ast.Compare) and len(n.ops) >= 2 and any(isinstance(o, (ast.Eq, ast.NotEq)) for o in n.ops)
                for n in ast.walk(ast.parse(src)))
+
+
+def is_lambda_closure_finding(src):
+    """the program has a lambda one of whose free variables is (re)assigned inside the body of an if / while / for of the
+    same function: liveness does not keep the closure variables of lambdas alive (lamba_check; root cause: C07's known
+    finding), so that variable can become a local of the generated body function and the lambda reads a stale / other cell"""
+    import ast
+    fn = ast.parse(src).body[0]
+    assigned_in_bodies = set()
+    for n in ast.walk(fn):
+        if isinstance(n, (ast.If, ast.While, ast.For)):
+            for st in n.body + n.orelse + ([n] if isinstance(n, ast.For) else []):
+                for x in ast.walk(st.target if st is n else st):
+                    if isinstance(x, ast.Name) and isinstance(x.ctx, ast.Store):
+                        assigned_in_bodies.add(x.id)
+    for n in ast.walk(fn):
+        if isinstance(n, ast.Lambda):
+            params = {a.arg for a in n.args.args + n.args.kwonlyargs}
+            free = {x.id for x in ast.walk(n.body) if isinstance(x, ast.Name) and isinstance(x.ctx, ast.Load)} - params
+            if free & assigned_in_bodies:
+                return True
+    return False
 
 
 def is_lists_aug_finding(src, feats, b):
@@ -614,6 +637,9 @@ def check(run):
         ('return-raises', progs.Opts(loop_else=False, reads='safe', max_stmts=12, max_depth=4, fresh_for_targets=True, mutation=True,
                                      raising_return=True, append=False,
                                      only={'if', 'try', 'return', 'retattr', 'expr', 'while', 'for', 'attr'}), 0.12),
+        # lambdas stored in variables and called later (closure variables are read late)
+        ('lambda-closures', progs.Opts(loop_else=False, reads='safe', max_stmts=12, fresh_for_targets=True, lambda_closures=True,
+                                       try_=False, with_=False), 0.1),
         # for-loop targets that are also assigned elsewhere: the shape of the known finding (root cause C07)
         ('for-target-reuse', progs.Opts(loop_else=False, reads='safe', max_stmts=14), 0.1),
     ]
@@ -679,6 +705,8 @@ def check(run):
                             run.violation(d, {}, classify=KNOWN_LISTS_AUG)
                         elif is_chained_equality_finding(src, feats, a, b):
                             run.violation(d, {}, classify=KNOWN_CHAIN_EQ)
+                        elif is_lambda_closure_finding(src):
+                            run.violation(d, {}, classify=KNOWN_LAMBDA)
                         else:
                             failures.append((d, src, dv, (rec, repr(feats)), None))
                         break
